@@ -43,6 +43,17 @@ def exc_code(exc):
     return ERR_OTHER
 
 
+LIT_CORPUS = [
+    [1, 2, 3], {"a": 1, "b": [2, 3]}, (1, "two", 3.0), "plain text",
+    "quote\" and 'apostrophe' and back\\slash", 1.5, {"nested": {"k": (1, 2)}}, frozenset([1, 2]),
+    b"bytes\x00\xff", True,
+]
+DOC_CORPUS = [
+    "single line doc", "two lines\n    second line", "ends with a quote\"",
+    "has \\ backslash and \"\"\" triple", "non-ascii: \u00e9\u00e8 \u2603", "trailing space ",
+]
+
+
 def enc_val(v):
     if v is None:
         return NONE_V
@@ -70,6 +81,7 @@ class World:
         mx.set_recalc(bool(recalc))
         mx.use_formula_error(formula_error)
         self.src2fid = {}
+        self.fid_of_build = {}
         self.track_handles = track_handles
         self.handles = []
         self._handle_ids = {}
@@ -122,6 +134,12 @@ class World:
                 sp.set_ref(rname, self.dec_obj(r["v"]), r["mode"])
         for p, fid in d.get("pf", []):
             self.space(p).formula = cz.render_pf(self.flib[fid])
+        for p, k in d.get("docs", {}).get("spaces", []):
+            self.space(p).doc = DOC_CORPUS[k]
+        for p, c, k in d.get("docs", {}).get("cells", []):
+            cc = self.space(p).cells[c]
+            cc.set_doc(DOC_CORPUS[k], insert_indents=True)
+            self.src2fid[(cc.formula.source.strip(), c)] = self.fid_of_build[(tuple(p), c)]
         for p, bs in d["bases"]:
             if bs:
                 self.space(p).add_bases(*[self.space(b) for b in bs])
@@ -132,6 +150,7 @@ class World:
     def _new_cells(self, sp, cname, crec):
         c = sp.new_cells(cname, self.src(crec["f"], cname),
                          is_cached=crec.get("cached", True))
+        self.fid_of_build[(tuple(sp._impl.idstr.split(".")), cname)] = crec["f"]
         if crec.get("an", 0):
             c.allow_none = (crec["an"] == 2)
         return c
@@ -164,6 +183,9 @@ class World:
             return self.m
         if tag == "dead":
             return self._dead_handle(o[3])
+        if tag == "lit":
+            import copy as _copy
+            return _copy.deepcopy(LIT_CORPUS[o[1]])
         raise ValueError(o)
 
     def _dead_handle(self, kind="sp"):
@@ -174,9 +196,11 @@ class World:
             delattr(self.m, "ZZdead")
         return self._dead[kind]
 
-    def enc_obj(self, v):
+    def enc_obj(self, v, model=None):
         if isinstance(v, Interface):
             impl = v._impl
+            if v._is_valid() and model is not None and impl.model is not model._impl:
+                return ["foreign", [], [], impl.model.name]
             if not v._is_valid():
                 from modelx.core.cells import Cells as _Cells
                 return ["dead", [], [], "ce" if isinstance(v, _Cells) else "sp"]
@@ -187,8 +211,11 @@ class World:
                 return ["ce", p, st, impl.name]
             p, st = self.enc_space(impl)
             return ["sp", p, st, ""]
-        if v is None or isinstance(v, int):
+        if v is None or (isinstance(v, int) and not isinstance(v, bool)):
             return ["int", enc_val(v), [], ""]
+        for k, c in enumerate(LIT_CORPUS):
+            if type(v) is type(c) and v == c:
+                return ["lit", k, [], ""]
         return ["other", [], [], type(v).__name__]
 
     def enc_space(self, impl):
@@ -229,7 +256,7 @@ class World:
 
     # ------------------------------------------------------------------
     # iteration over everything
-    def all_spaces(self):
+    def all_spaces(self, model=None):
         """Yield every space impl: static tree, then dynamic trees."""
         def walk(impl):
             yield impl
@@ -237,8 +264,95 @@ class World:
                 yield from walk(ch)
             for it in list(impl.param_spaces.values()):
                 yield from walk(it)
-        for s in self.m._impl.named_spaces.values():
+        for s in (model or self.m)._impl.named_spaces.values():
             yield from walk(s)
+
+    def held_inputs(self, model=None):
+        """[[node, value]] of every user-assigned value, ItemSpaces included."""
+        out = []
+        for s in self.all_spaces(model):
+            p, st = self.enc_space(s)
+            for c in s.cells.values():
+                for k in c.input_keys:
+                    out.append([[p, st, c.name, [enc_val(x) for x in k]], enc_val(c.data[k])])
+        return out
+
+    # ------------------------------------------------------------------
+    # C04: write in both container formats, read back, project, evaluate
+    def op_write_read(self, op):
+        import os
+        import shutil
+        import tempfile
+        import zipfile
+        tmp = tempfile.mkdtemp(prefix="mxv_c04_")
+        extra = {}
+        try:
+            before_path = self.m.path
+            dpath, zpath = os.path.join(tmp, "m"), os.path.join(tmp, "m.zip")
+            self.m.write(dpath)
+            self.m.zip(zpath)
+            files_dir = sorted(
+                os.path.relpath(os.path.join(d, f), dpath).replace(os.sep, "/")
+                for d, _, fs in os.walk(dpath) for f in fs)
+            with zipfile.ZipFile(zpath) as z:
+                files_zip = sorted(n for n in z.namelist() if not n.endswith("/"))
+            extra["files_dir"], extra["files_zip"] = files_dir, files_zip
+            extra["path_changed_only"] = True
+            reads = []
+            for fmt, path in (("dir", dpath), ("zip", zpath)):
+                rec = {"fmt": fmt}
+                try:
+                    r = mx.read_model(path, name="R")
+                except Exception as e:
+                    rec["readable"] = False
+                    rec["err"] = type(e).__name__
+                    reads.append(rec)
+                    continue
+                try:
+                    rec["readable"] = True
+                    rec["inputs"] = self.held_inputs(r)
+                    rec["defs"] = self.project_defs(r, full=True)
+                    vals = []
+                    for n in op.get("queries", []):
+                        try:
+                            c = self._nav(r, n[0], n[1]).cells[n[2]]
+                            vals.append([n, enc_val(c(*n[3]))])
+                        except FormulaError:
+                            vals.append([n, exc_code(mx.get_error())])
+                        except Exception as e:
+                            vals.append([n, exc_code(e)])
+                    rec["values"] = vals
+                    if op.get("chain"):
+                        # write the read model again and read that: repeated chains
+                        p2 = os.path.join(tmp, "m2" + (".zip" if fmt == "zip" else ""))
+                        (r.zip if fmt == "zip" else r.write)(p2)
+                        r2 = mx.read_model(p2, name="R2")
+                        try:
+                            rec["defs2"] = self.project_defs(r2, full=True)
+                            rec["inputs2"] = self.held_inputs(r2)
+                        finally:
+                            r2.close()
+                finally:
+                    r.close()
+                reads.append(rec)
+            extra["reads"] = reads
+            extra["fdefs"] = self.project_defs(self.m, full=True)
+            extra["minputs"] = self.held_inputs(self.m)
+        finally:
+            shutil.rmtree(tmp, ignore_errors=True)
+        self._extra = extra
+        return "ok"
+
+    def _nav(self, model, path, steps):
+        obj = model
+        for nm in path:
+            obj = obj.spaces[nm] if obj is model else obj.named_spaces[nm]
+        for st in steps:
+            if st[0] == "i":
+                obj = obj[tuple(st[2])] if len(st[2]) != 1 else obj[st[2][0]]
+            else:
+                obj = obj.named_spaces[st[1]]
+        return obj
 
     def sync(self):
         for s in self.all_spaces():
@@ -380,9 +494,13 @@ class World:
         key = (src.strip() if src else "", c.name)
         return self.src2fid.get(key, "?")
 
-    def project_defs(self):
-        """What the model itself reports as its definitions (public API)."""
+    def project_defs(self, model=None, full=False):
+        """What the model itself reports as its definitions (public API).
+        full=True adds what a write/read round trip must preserve beyond the abstract
+        definitions: formula source text, docs, parameter formula source."""
         sp, bases, dbases, cells, refs, pf, span, dirs = [], [], [], [], [], [], [], []
+        model = model or self.m
+        docs = []
 
         def walk(s):
             p = s._impl.idstr.split(".")
@@ -400,25 +518,30 @@ class World:
                             "an": {None: 0, False: 1, True: 2}[c._impl.allow_none],
                             "derived": bool(c._is_derived()),
                             "ps": list(c.parameters)}
+                if full:
+                    cs[name]["src"] = c.formula.source or ""
+                    cs[name]["doc"] = c.doc or ""
             cells.append([p, cs])
             rs = {}
             for name in s._own_refs:
                 r = s._impl.own_refs[name]
-                rs[name] = {"v": self.enc_obj(r.interface), "mode": r.refmode or "none",
+                rs[name] = {"v": self.enc_obj(r.interface, model), "mode": r.refmode or "none",
                             "derived": bool(r.is_derived())}
             refs.append([p, rs])
             if s.formula is not None:
-                pf.append([p, list(s.parameters)])
+                pf.append([p, list(s.parameters)] + ([s.formula.source] if full else []))
+            if full:
+                docs.append([p, s.doc or ""])
             span.append([p, {None: 0, False: 1, True: 2}[s._impl.allow_none]])
             dirs.append([p, sorted(n for n in dir(s))])
             for ch in s.named_spaces.values():
                 walk(ch)
-        for s in self.m.spaces.values():
+        for s in model.spaces.values():
             walk(s)
         grefs = {}
-        for name, r in self.m._impl.global_refs.items():
+        for name, r in model._impl.global_refs.items():
             if name != "__builtins__":
-                grefs[name] = {"v": self.enc_obj(r.interface)}
+                grefs[name] = {"v": self.enc_obj(r.interface, model)}
         import keyword
         bad = []
         for p in sp:
@@ -428,9 +551,13 @@ class World:
             for n in cs:
                 if not (n.isidentifier() and not n.startswith("_") and not keyword.iskeyword(n)):
                     bad.append(n)
-        return {"sp": sp, "bases": bases, "dbases": dbases, "cells": cells, "refs": refs,
-                "grefs": grefs, "pf": pf, "span": span, "dir": dirs,
-                "an": bool(self.m._impl.allow_none), "badnames": sorted(set(bad))}
+        out = {"sp": sp, "bases": bases, "dbases": dbases, "cells": cells, "refs": refs,
+               "grefs": grefs, "pf": pf, "span": span, "dir": dirs,
+               "an": bool(model._impl.allow_none), "badnames": sorted(set(bad))}
+        if full:
+            out["docs"] = docs
+            out["modeldoc"] = model.doc or ""
+        return out
 
     def project_deps(self):
         """preds/succs/precedents as the public API reports them, for every held element."""
